@@ -37,6 +37,31 @@ def demand (v : View) (k : Nat) : View :=
   if k < v.rest.length then v
   else { v with sawEnd := true, ioErr := v.ioErr || (v.fault && !v.sawEnd) }
 
+/-- Executable form of `demand`: decides `k < rest.length` by looking at `rest.drop k` (cost `k`,
+not the length of the whole remaining input).  `demand_eq_demandFast` makes the compiler use it;
+the theorems are about `demand`. -/
+def demandFast (v : View) (k : Nat) : View :=
+  let v := { v with peeked := max v.peeked (v.pos + k + 1) }
+  match v.rest.drop k with
+  | _ :: _ => v
+  | [] => { v with sawEnd := true, ioErr := v.ioErr || (v.fault && !v.sawEnd) }
+
+@[csimp] theorem demand_eq_demandFast : @demand = @demandFast := by
+  funext v k
+  simp only [demand, demandFast]
+  cases h : v.rest.drop k with
+  | nil =>
+    have : ¬ k < v.rest.length := by
+      intro hk
+      have hl := List.length_drop (i := k) (l := v.rest)
+      rw [h] at hl; simp at hl; omega
+    simp [this]
+  | cons a t =>
+    have : k < v.rest.length := by
+      have hl := List.length_drop (i := k) (l := v.rest)
+      rw [h] at hl; simp at hl; omega
+    simp [this]
+
 /-- `request_byte_at_offset(k)`. -/
 def reqAt (v : View) (k : Nat) : Option UInt8 × View := (v.rest[k]?, v.demand k)
 
@@ -55,6 +80,59 @@ def advance (v : View) (n : Nat) : Option View :=
 /-- `&buf()[..n]` for an already scanned `n`; `none` = slice index panic. -/
 def bufPrefix (v : View) (n : Nat) : Option VBytes :=
   if n ≤ v.demanded then some (v.rest.take n) else none
+
+/-- `n ≤ l.length`, decided in `n` steps. -/
+def lengthGe (l : VBytes) (n : Nat) : Bool :=
+  match n with
+  | 0 => true
+  | n + 1 => !(l.drop n).isEmpty
+
+theorem lengthGe_iff (l : VBytes) (n : Nat) : lengthGe l n = true ↔ n ≤ l.length := by
+  cases n with
+  | zero => simp [lengthGe]
+  | succ n =>
+    simp only [lengthGe]
+    cases h : l.drop n with
+    | nil =>
+      have hl := List.length_drop (i := n) (l := l)
+      rw [h] at hl; simp at hl; simp; omega
+    | cons a t =>
+      have hl := List.length_drop (i := n) (l := l)
+      rw [h] at hl; simp at hl; simp; omega
+
+/-- Executable forms of `advance` / `bufPrefix` that do not walk the whole remaining input. -/
+def advanceFast (v : View) (n : Nat) : Option View :=
+  if n ≤ v.peeked - v.pos ∧ lengthGe v.rest n then some { v with rest := v.rest.drop n, pos := v.pos + n }
+  else none
+
+def bufPrefixFast (v : View) (n : Nat) : Option VBytes :=
+  if n ≤ v.peeked - v.pos ∧ lengthGe v.rest n then some (v.rest.take n) else none
+
+@[csimp] theorem advance_eq_advanceFast : @advance = @advanceFast := by
+  funext v n
+  simp only [advance, advanceFast, demanded]
+  have := lengthGe_iff v.rest n
+  by_cases h : n ≤ min (v.peeked - v.pos) v.rest.length
+  · have h1 : n ≤ v.peeked - v.pos := by omega
+    have h2 : lengthGe v.rest n = true := this.mpr (by omega)
+    simp [h, h1, h2]
+  · by_cases h1 : n ≤ v.peeked - v.pos
+    · have h2 : ¬ lengthGe v.rest n = true := fun hh => h (by have := this.mp hh; omega)
+      simp [h, h2]
+    · simp [h, h1]
+
+@[csimp] theorem bufPrefix_eq_bufPrefixFast : @bufPrefix = @bufPrefixFast := by
+  funext v n
+  simp only [bufPrefix, bufPrefixFast, demanded]
+  have := lengthGe_iff v.rest n
+  by_cases h : n ≤ min (v.peeked - v.pos) v.rest.length
+  · have h1 : n ≤ v.peeked - v.pos := by omega
+    have h2 : lengthGe v.rest n = true := this.mpr (by omega)
+    simp [h, h1, h2]
+  · by_cases h1 : n ≤ v.peeked - v.pos
+    · have h2 : ¬ lengthGe v.rest n = true := fun hh => h (by have := this.mp hh; omega)
+      simp [h, h2]
+    · simp [h, h1]
 
 def setMark (v : View) : View := { v with mark := v.pos }
 
